@@ -159,6 +159,7 @@ number(struct scanner *s)
 		case '-':
 			if (!allowsign)
 				goto done;
+			allowsign = false;
 			break;
 		case '_':
 		case '.':
